@@ -41,7 +41,17 @@ func newGCWorld(r *Rng, cov *Cov) *gcWorld {
 	g := &gcWorld{w: &w, r: r, ids: map[string]ecs.ID{}, model: map[ecs.Entity]map[string][]uint64{}, plain: map[ecs.Entity]map[string]bool{},
 		tracked: map[uint64]int{}, cov: cov, targets: map[ecs.Entity]ecs.Entity{}}
 	// fillers first so that IDs are spread
-	for i := 0; i < r.Intn(20); i++ {
+	// (in some cases by whole mask words: the pointer-carrying components then get IDs 64+, 128+ or 192+, with
+	// pointer-free fillers sitting at the same positions of the lower words)
+	lead := r.Intn(20)
+	if r.Chance(0.4) {
+		lead = Pick(r, []int{50 + r.Intn(20), 115 + r.Intn(20), 180 + r.Intn(50)})
+		cov.N["pointer_components_in_high_mask_words"]++
+	}
+	if lead > ecs.MaskTotalBits-24 {
+		lead = ecs.MaskTotalBits - 24
+	}
+	for i := 0; i < lead; i++ {
 		ecs.TypeID(&w, TypeOfKey(fmt.Sprintf("F%d", 6500+i)))
 	}
 	// registration order decides the IDs: shuffle it, so that zero-sized labels and the relation get IDs
